@@ -432,7 +432,16 @@ def run_reader_session(c: Container, ops: list[dict[str, Any]], *, content: bool
                         gen = reader.records(p, reverse=True)
                     else:
                         raise Machinery(f"unknown op {o}")
-                    recs = list(islice(gen, cap + 1))
+                    if o.get("lenat") is not None:
+                        # a forward read during which the caller asks for len(reader) after `lenat` records
+                        # (a progress display); the read must still yield every selected record once
+                        recs = []
+                        for r in islice(gen, cap + 1):
+                            if len(recs) == o["lenat"]:
+                                len(reader)
+                            recs.append(r)
+                    else:
+                        recs = list(islice(gen, cap + 1))
                     if len(recs) > cap:
                         res = {"t": "Exc", "cls": "DoesNotTerminate"}
                     else:
@@ -446,7 +455,7 @@ def run_reader_session(c: Container, ops: list[dict[str, Any]], *, content: bool
                 raise
             except Exception as e:  # noqa: BLE001
                 res = _exc(e)
-            sess["ops"].append({"op": o, "res": res})
+            sess["ops"].append({"op": {k: o[k] for k in ("mode", "p", "n", "off")}, "res": res})
     finally:
         try:
             reader.close()
